@@ -82,3 +82,29 @@ func (a *StreamSvc) CloseSelf(s *SS) error {
 	s.st.Close()
 	return err
 }
+
+// Duplex: a full-duplex handler: the handler's own goroutine blocks in ReadMessage (and echoes), a second
+// goroutine of the same handler pushes a message each time the scenario opens the next gate.
+func (a *StreamSvc) Duplex(s *SS) error {
+	w := a.w
+	w.streamsIn++
+	defer func() { w.streamsEx++ }()
+	vs.GoNamed("duplex-pusher", func() {
+		for i := 0; i < 3; i++ {
+			tag := byte(0xD0 + i)
+			vs.Block(fmt.Sprintf("pusher gate %d", i), func() bool { return w.gates[tag] })
+			m := []byte{0xEE, byte(i), 0xEE, byte(i)}
+			w.duplexPush = append(w.duplexPush, errStr(s.st.WriteMessage(&m)))
+		}
+	})
+	for {
+		var in []byte
+		if err := s.st.ReadMessage(nil, &in); err != nil {
+			return err
+		}
+		out := transform(in)
+		if err := s.st.WriteMessage(&out); err != nil {
+			return err
+		}
+	}
+}
